@@ -38,8 +38,8 @@ RULE = (
     "interpreted modulo the current sizes, so every history is valid) over the plugin family src -> aa -> {bb, "
     "(c1,c2)} + child plugin ch of aa's class, with tracked / untracked / shared / child-overriding options; "
     "values come from small pools of ints, floats, strs, bools, None, tuples, lists, nested dicts with shuffled "
-    "insertion order, numpy scalars/arrays, immutabledict (so that states are revisited and ambiguous pairs like "
-    "1 / 1.0 / True or (1,2) / [1,2] occur).  Non-trivial = the history contains a make/get that stored data, "
+    "insertion order, numpy scalars/arrays, immutabledict (so that states are revisited and near-twins like "
+    "1 / 1.0 / True - different values - or (1,2) / [1,2] - an ambiguous pair - occur).  Non-trivial = the history contains a make/get that stored data, "
     "followed by a lineage-affecting change, followed by a later get_array.  keys: non-trivial = the mutation "
     "changes the reference lineage of at least one but not of all data types.  xproc: non-trivial = the batch "
     "contains a nested dict or a numpy / immutabledict value.  distinct = distinct descriptor hashes.  (The shapes "
@@ -56,8 +56,11 @@ ASSUMPTIONS = [
     "raises TypeError for these - in the fresh context as well, so nothing can be compared; keys and is_stored are "
     "still checked for such states",
     "two values are 'certainly the same' only with identical types throughout (dict insertion order ignored) and "
-    "'certainly different' only when they differ as python values (1 == 1.0 == True, list == tuple == array, "
-    "dict == immutabledict are neither: both outcomes are accepted and counted as ambiguous_pair)",
+    "'certainly different' when they differ in content or in the kind of a number (True / 1 / 1.0 are different "
+    "values: the harness plugins compute different rows for them, so conflating them is a stale read); list == "
+    "tuple == array, dict == immutabledict, numpy scalar == python scalar of the same kind and -0.0 == 0.0 are "
+    "neither: both outcomes are accepted and counted as ambiguous_pair; under fuzzy matching numbers are compared "
+    "by python equality, as a comparison of json-decoded lineages does",
     "registrations that Context.register documents to reject (two registered classes with different defaults for "
     "one option name) are not generated",
     "single DataDirectory frontend, save_when ALWAYS everywhere, default (single-thread) processor",
